@@ -94,8 +94,19 @@ def hostile_scaled_values(rng, signed, n_word, n_frac, n=6, ranges_outside=3, in
     m = 1 << n_word
     out = []
     for _ in range(n):
-        c = rng.choice(['code', 'code', 'quarter', 'quarter', 'tie', 'tie', 'bound', 'bound', 'outside', 'outside', 'modulus', 'zero', 'fine'])
-        if c == 'code':
+        c = rng.choice(['code', 'code', 'quarter', 'quarter', 'tie', 'tie', 'bound', 'bound', 'outside', 'outside', 'modulus', 'zero', 'fine', 'ulp', 'ulp'])
+        if c == 'ulp':
+            # a double a few ulps away from a representable value (or from a tie): direction contracts are decided here
+            k = rng.choice([lo, hi, 0, rng.randint(lo, hi), rng.randint(lo, hi)])
+            base = F(k) + rng.choice([0, 0, 0, F(1, 2)])
+            try:
+                b = float(base / (F(2) ** n_frac))
+                for _ in range(rng.choice([1, 1, 2, 5])):
+                    b = float(np.nextafter(b, rng.choice([-np.inf, np.inf])))
+                x = F(b) * (F(2) ** n_frac)
+            except (OverflowError, ValueError):
+                x = base
+        elif c == 'code':
             x = F(rng.randint(lo, hi))
         elif c == 'quarter':
             x = F(rng.randint(lo, hi)) + F(rng.choice([1, 2, 3, -1, -2, -3]), 4)
